@@ -1400,4 +1400,64 @@ func TestVerifC19LateSwitch(t *testing.T) {
 				Detail: fmt.Sprintf("Config.Telemetry.Enabled was false when Server.Start ran, yet %d telemetry request(s) were made within 1.5 s", n)})
 		}
 	}
+	// "disabled by ANY route ... no telemetry request is ever made": every environment variable the server or the telemetry
+	// package reads by a literal name (os.Getenv / os.LookupEnv in the non-test files of package server and server/telemetry, read
+	// from the source on every run - none on the unchanged tree) is set to each of a few values while telemetry is disabled by
+	// the file, the documented variable and the program at once: still no request.
+	names := c19EnvNamesRead()
+	res.Note(fmt.Sprintf("environment variables read by literal name in server/*.go and server/telemetry/*.go (non-test): %v", names))
+	slot := len(cases)
+	for _, name := range names {
+		for _, val := range []string{"0", "false", "no", "1", "true", `""`} {
+			restore := c19SetEnv(name, val)
+			out := c19RunServer(c19Case{File: "false", Env: "false", Prog: "false", HasFile: true}, slot, false, 1500*time.Millisecond, true)
+			restore()
+			slot++
+			line := fmt.Sprintf("c19 env-sweep %s=%s with telemetry disabled by file, LIFTBRIDGE_TELEMETRY_ENABLED and program", name, val)
+			res.Count(line, true)
+			res.Dist("env-sweep")
+			if out.skipped != "" {
+				res.Note(line + ": skipped: " + out.skipped)
+				continue
+			}
+			if out.err != "" {
+				res.Fail(vFailure{Kind: "disagreement", Case: []string{line}, Detail: "harness could not run the server scenario: " + out.err})
+				continue
+			}
+			if n := len(out.reqs); n > 0 {
+				res.Fail(vFailure{Kind: "spec", Case: []string{line}, Impl: []string{string(out.reqs[0].Body)}, Tag: "telemetry-env-reenables",
+					Detail: fmt.Sprintf("telemetry was disabled by every documented route, the environment variable %s=%s (which the code reads) was set, and %d telemetry request(s) were made within 1.5 s", name, val, n)})
+				break
+			}
+		}
+	}
 }
+
+// c19EnvNamesRead: the literal names passed to os.Getenv / os.LookupEnv in the non-test Go files of the package directory (the test's
+// working directory) and of ./telemetry.
+func c19EnvNamesRead() []string {
+	seen := map[string]bool{}
+	var out []string
+	for _, dir := range []string{".", "telemetry"} {
+		files, _ := filepath.Glob(filepath.Join(dir, "*.go"))
+		for _, f := range files {
+			if strings.HasSuffix(f, "_test.go") {
+				continue
+			}
+			src, err := os.ReadFile(f)
+			if err != nil {
+				continue
+			}
+			for _, m := range c19EnvCallRe.FindAllStringSubmatch(string(src), -1) {
+				if !seen[m[1]] && !strings.HasPrefix(m[1], "VERIF_") {
+					seen[m[1]] = true
+					out = append(out, m[1])
+				}
+			}
+		}
+	}
+	sort.Strings(out)
+	return out
+}
+
+var c19EnvCallRe = regexp.MustCompile(`os\.(?:Getenv|LookupEnv)\(\s*"([^"]+)"`)
